@@ -1,8 +1,75 @@
-(* Properties/C18.v — statements only. *)
-From Coq Require Import ZArith List Bool.
-From XV Require Import Base.Str Spec.PyEval Model.Pycode.
+(* Properties/C18.v — statements only.
+   C18: "Executing the Python source produced by the code serializer for any model
+   instance in a fresh namespace binds the requested variable to an object equal to the
+   original, and the emitted import lines are sufficient for that source to run."
+
+   repr/imports  = Model/Pycode.v (PycodeSerializer, literal_value, the __repr__s)
+   eval/veq      = Spec/PyEval.v  (CPython on the emitted subset; NaN-tolerant ==)
+   wf            = invariants of real object graphs (fields match the class, dict keys
+                   distinct hashable scalars, Decimal/float/date payloads well-formed)
+   guard         = g_array && g_enum && g_imports && g_raw && g_init, one clause per
+                   refutation below *)
+From Coq Require Import NArith ZArith List Bool String.
+From XV Require Import Base.Str Spec.PyEval Model.Pycode Proofs.Pycode Proofs.PycodeRefuted.
 Import ListNotations.
 
-Example C18_placeholder : roundtrip [] (VList [VInt 1%Z; VNone]) = true.
-Proof. vm_compute. reflexivity. Qed.
-Print Assumptions C18_placeholder.
+(* the full statement is false of the faithful model ... *)
+Theorem C18_evals_back_unguarded_refuted :
+  exists W o, wf W o = true /\ roundtrip W o = false.
+Proof. exists W_wit, wit_tuple. split; apply array_refuted. Qed.
+Print Assumptions C18_evals_back_unguarded_refuted.
+
+(* ... for exactly these reasons (each witness violates one clause of the guard only) *)
+Theorem C18_array_refuted :
+  exists W o, wf W o = true /\ only_array W o = true /\ roundtrip W o = false.
+Proof. exists W_wit, wit_tuple. exact array_refuted. Qed.
+Print Assumptions C18_array_refuted.
+
+Theorem C18_inner_enum_refuted :
+  exists W o, wf W o = true /\ only_enum W o = true /\ roundtrip W o = false.
+Proof. exists W_wit, wit_enum. exact inner_enum_refuted. Qed.
+Print Assumptions C18_inner_enum_refuted.
+
+Theorem C18_import_collision_refuted :
+  exists W o, wf W o = true /\ only_imports W o = true /\ roundtrip W o = false.
+Proof. exists W_wit, wit_collision. exact import_collision_refuted. Qed.
+Print Assumptions C18_import_collision_refuted.
+
+Theorem C18_qname_text_refuted :
+  exists W o, wf W o = true /\ only_raw W o = true /\ roundtrip W o = false.
+Proof. exists W_wit, wit_qname. exact qname_refuted. Qed.
+Print Assumptions C18_qname_text_refuted.
+
+Theorem C18_duration_text_refuted :
+  exists W o, wf W o = true /\ only_raw W o = true /\ roundtrip W o = false.
+Proof. exists W_wit, wit_duration. exact duration_refuted. Qed.
+Print Assumptions C18_duration_text_refuted.
+
+Theorem C18_init_false_refuted :
+  exists W o, wf W o = true /\ only_init W o = true /\ roundtrip W o = false.
+Proof. exists W_wit, wit_init. exact init_false_refuted. Qed.
+Print Assumptions C18_init_false_refuted.
+
+Theorem C18_imports_sufficient_unguarded_refuted :
+  exists W o n, wf W o = true /\ In n (heads (repr W o)) /\ is_builtin n = false /\
+                existsb (fun p => str_eqb (snd p) n) (imports W o) = false.
+Proof. exists W_wit, wit_enum, (lit "Kind"). exact imports_sufficient_refuted. Qed.
+Print Assumptions C18_imports_sufficient_unguarded_refuted.
+
+(* inside the guard: all worlds, all instances, no bound *)
+Theorem C18_pycode_evals_back :
+  forall W o, wf W o = true -> guard W o = true ->
+  exists o', eval W (env_of_imports (imports W o)) (repr W o) = Some o' /\ veq true o' o = true.
+Proof. exact pycode_evals_back. Qed.
+Print Assumptions C18_pycode_evals_back.
+
+Theorem C18_imports_sufficient :
+  forall W o, wf W o = true -> g_enum W o = true ->
+  forall n, In n (heads (repr W o)) -> is_builtin n = true \/ exists m, In (m, n) (imports W o).
+Proof. exact imports_sufficient. Qed.
+Print Assumptions C18_imports_sufficient.
+
+Example C18_guard_nonvacuous :
+  wf W_wit wit_ok = true /\ guard W_wit wit_ok = true /\ roundtrip W_wit wit_ok = true.
+Proof. exact guard_nonvacuous. Qed.
+Print Assumptions C18_guard_nonvacuous.
